@@ -39,6 +39,7 @@ type Str struct {
 type strPart struct {
 	Lit string
 	Big string
+	Hex bool // Big is rendered as lower-case hex of the big-endian bytes of a NON-NEGATIVE value (hex.EncodeToString(x.Bytes()))
 }
 
 func (s Str) IsC() bool { return s.S == "" && !s.IsB }
@@ -86,6 +87,7 @@ type Array struct{ E []*Cell }
 // ByteArr is the backing store of every byte buffer: an SMT array BV64 -> BV8.
 type ByteArr struct {
 	Org     *Str // content = injective hash of this string (whole array)
+	BigAbs  string // content = minimal big-endian bytes of this non-negative 256-bit term ((*big.Int).Bytes()); not materialised
 	T       string
 	Cap     Int
 	Known   map[uint64]Int // overlay of writes at concrete indices (applied on top of T)
